@@ -56,7 +56,7 @@ SPELL = ['inline', 'number', 'star', 'inline3', 'numstar']
 TKEYS = ['none', 't', 'rz90', 'rz30', 'rx90', 't2']
 
 
-def build(ch):
+def build(ch, with_options=True):
     d = HDeck('c05 universes')
     d.add_surface(1, 'px', [-4.0]); d.add_surface(2, 'px', [0.0]); d.add_surface(3, 'px', [4.0])
     d.add_surface(4, 'py', [-4.0]); d.add_surface(5, 'py', [4.0])
@@ -79,10 +79,12 @@ def build(ch):
     t3 = ch.choose('t3', ['none', 't', 'rz30']) if depth >= 3 else 'none'
     u2split = ch.choose('u2split', [23, 24]) if depth >= 2 else 23
     imp19 = ch.choose('imp19', [1, 0])
-    opts = ch.choose('options', [[], ['--max-inline-score', '0'], ['--always-inline-filling'],
-                                 ['--always-inline-filled'],
-                                 ['--always-inline-filling', '--always-inline-filled'],
-                                 ['--skip-deduplication']])
+    opts = []
+    if with_options:
+        opts = ch.choose('options', [[], ['--max-inline-score', '0'], ['--always-inline-filling'],
+                                     ['--always-inline-filled'],
+                                     ['--always-inline-filling', '--always-inline-filled'],
+                                     ['--skip-deduplication']])
     # level 0
     c10 = HCell(10, ('*', ('*', 1, -2), ('*', 4, -5)), mat=1, rho='-2.7')
     c11 = HCell(11, ('*', ('*', 2, -3), ('*', 4, -5)), mat=2, rho='-1.0')
@@ -131,8 +133,8 @@ def ref_planes(d):
     return d.all_ref_planes()
 
 
-def check_state(scn, st, corrupt=None):
-    r = env.run(st.deck_text, st.options)
+def check_state(scn, st, corrupt=None, result=None):
+    r = result if result is not None else env.run(st.deck_text, st.options)
     # well-formedness of the generated deck (reference side)
     if not r.ok:
         return verdict(False, st, cls={'kind': 'exception', 'exc': r.exc_type},
